@@ -1,5 +1,5 @@
 """Checks for the advertiser family: C06, C07, C08, C09, C10 (session part), C04."""
-import json, os, random, time
+import json, os, random, re, time
 import vf, adv
 
 GRID = 500   # ms per model tick in the exhaustive configurations
@@ -110,6 +110,29 @@ def adv_check(pid, tier, replay, plan):
 
     # 4. run the real code
     outs = adv.run_scenarios(tmp, scenarios, pid)
+    # 4b. a sample of the scenarios once more under the Go race detector (thorough tier, and C08 always): a lock that a
+    # change removed is a data race long before it is a wrong trace
+    race_viol = []
+    if not replay and (thorough or pid == "C08" or os.environ.get("VERIF_RACE_ALL")) and not os.environ.get("VERIF_NO_RACE"):
+        rs = [s for s in scenarios if plan["nontrivial"](s)]
+        rng.shuffle(rs)
+        rs = rs[:200 if thorough or os.environ.get("VERIF_RACE_ALL") else 40]
+        inp = os.path.join(tmp, "%s-race-in.ndjson" % pid)
+        vf.write_ndjson(inp, rs)
+        try:
+            vf.go_test(adv.HARNESS_PKGS, "internal/corerad", "^TestVF_Adv$", env={"VF_IN": inp, "VF_OUT": os.path.join(tmp, "%s-race-out.ndjson" % pid)},
+                       timeout=1200, tmp=vf.mktmp("vf-go-"), race=True)
+        except vf.DataRace as dr:
+            blocks = [b for b in dr.out.split("WARNING: DATA RACE")[1:]
+                      if re.search(r"internal/(corerad|system|plugin|config)/(?!zz_vf_)[a-z_]+\.go:\d+", b)
+                      and not re.search(r"Previous (read|write) at .*\n\s+github.com/mdlayher/corerad/internal/corerad\.vf", b)]
+            real = [b for b in blocks if not all("zz_vf_" in ln for ln in re.findall(r"^\s+/\S+\.go:\d+.*$", b, re.M)[:2])]
+            if real:
+                race_viol = [{"viol": "c08-c10-data-race-in-the-advertiser", "id": rs[0]["id"], "t": 0, "detail": real[0][:2000]}]
+            else:
+                raise vf.Infra("data race inside the harness itself: %s" % dr.out[-1500:])
+        except vf.ProductCrash:
+            pass        # (crashes are reported by the main run)
     # 5. validate every recorded trace against the requirement spec
     viols, ntr, nlines, samples = adv.validate(tmp, outs, pid, ifis=plan.get("ifis", ("vf0",)))
 
@@ -130,6 +153,7 @@ def adv_check(pid, tier, replay, plan):
                   % (pid, evs[0]["id"], k - 1, len(evs), json.dumps(nxt)))
         conf["detail"] = detail
 
+    viols = list(viols) + race_viol
     mine, others = [], []
     for v in viols:
         props = adv.clause_props(v["viol"])
